@@ -6,7 +6,7 @@
 ID=$1; TIER=${2:-quick}; shift 2 2>/dev/null
 D=/verif/seeded/$ID
 [ -f "$D/patch.diff" ] || { echo "no $D/patch.diff"; exit 2; }
-PROP=$(jq -r .property "$D/meta.json")
+PROP=$(jq -r .property "$D/meta.json" | sed "s/b$//")
 WT=/tmp/seedrun-$ID-$$
 git -C /repo worktree add --detach "$WT" HEAD >/dev/null 2>&1 || exit 2
 trap 'git -C /repo worktree remove --force "$WT" >/dev/null 2>&1; rm -f /verif/.cache/bin/*-$(echo "$WT" | cksum | cut -d" " -f1)' EXIT
